@@ -135,6 +135,45 @@ Definition ct_escape_table : list (N * N) :=
 Theorem tie_escape_table : src_escape_table = ct_escape_table.
 Proof. vm_compute. reflexivity. Qed.
 
+
+(* ---------------------------------------------------------------- parser: leaf parsers, executed *)
+(* null.rs, boolean.rs, parse_hex4 (string.rs) and the two functions of array.rs are RUN by the translator on short
+   inputs against a stub of `Parser` (every character one byte long, one open code-map entry at index 0); the same
+   inputs go through the model's leaf functions here.  Outcome: Ok -> [0; payload; fragment index; position] followed by
+   the code map flattened; Err(Unexpected(p, c)) -> [1; p; c + 1 | 0]; Err(Stream(p)) -> [5; p]. *)
+(* the item 0x110000 of an input word stands for a failing source item *)
+Definition ct_state (w : list N) : pstate :=
+  {| rest := map (fun c => if c =? 0x110000 then SErr else SOk c 1) w; pos := 0; cm := [(0, 0, 0)] |}.
+Definition ct_flat (m : list cme) : list N := flat_map (fun e => match e with (a, b, v) => [a; b; v] end) m.
+Definition ct_outcome {A} (pay : A -> N * N) (r : res A) : list N :=
+  match r with
+  | Ok (x, st) => [0; fst (pay x); snd (pay x); pos st] ++ ct_flat (cm st)
+  | Err (EUnexpected p c) => [1; p; match c with Some c => c + 1 | None => 0 end]
+  | Err (EStream p) => [5; p]
+  | Err _ => [2]
+  | Panic _ => [3]
+  | OutOfFuel => [4]
+  end.
+Definition ct_b (b : bool) : N := if b then 1 else 0.
+Definition ct_on {A} (pay : A -> N * N) (f : pstate -> res A) (table : list (list N * list N)) : list (list N * list N) :=
+  map (fun w => (w, ct_outcome pay (f (ct_state w)))) (map fst table).
+
+Theorem tie_leaf_null : src_leaf_null = ct_on (fun i => (0, i)) parse_null src_leaf_null.
+Proof. vm_compute. reflexivity. Qed.
+Theorem tie_leaf_bool : src_leaf_bool = ct_on (fun x => (ct_b (fst x), snd x)) parse_bool src_leaf_bool.
+Proof. vm_compute. reflexivity. Qed.
+Theorem tie_leaf_hex4 : src_leaf_hex4 = ct_on (fun h => (h, 0)) parse_hex4 src_leaf_hex4.
+Proof. vm_compute. reflexivity. Qed.
+Theorem tie_leaf_array_start : src_leaf_array_start = ct_on (fun x => (ct_b (fst x), snd x)) array_start src_leaf_array_start.
+Proof. vm_compute. reflexivity. Qed.
+Theorem tie_leaf_array_continue : src_leaf_array_continue = ct_on (fun b => (ct_b b, 0)) (array_continue 0) src_leaf_array_continue.
+Proof. vm_compute. reflexivity. Qed.
+(* the tables are not empty (the ties above would hold of an empty table) *)
+Lemma leaf_tables_nonempty :
+  (30 <=? length src_leaf_null)%nat = true /\ (60 <=? length src_leaf_bool)%nat = true /\ (100 <=? length src_leaf_hex4)%nat = true
+  /\ (300 <=? length src_leaf_array_start)%nat = true /\ (200 <=? length src_leaf_array_continue)%nat = true.
+Proof. vm_compute. repeat split; reflexivity. Qed.
+
 (* ---------------------------------------------------------------- printer: presets *)
 
 Definition cval_of_indent (i : indent) : cval :=
@@ -297,6 +336,19 @@ Proof. exact (conj tie_number_automaton (conj num_trans_above (conj ct_nstates_a
 Theorem parser_escapes_from_source : src_escape_table = ct_escape_table.
 Proof. exact tie_escape_table. Qed.
 
+Theorem leaf_parsers_from_source :
+  src_leaf_null = ct_on (fun i => (0, i)) parse_null src_leaf_null
+  /\ src_leaf_bool = ct_on (fun x => (ct_b (fst x), snd x)) parse_bool src_leaf_bool
+  /\ src_leaf_hex4 = ct_on (fun h => (h, 0)) parse_hex4 src_leaf_hex4
+  /\ src_leaf_array_start = ct_on (fun x => (ct_b (fst x), snd x)) array_start src_leaf_array_start
+  /\ src_leaf_array_continue = ct_on (fun b => (ct_b b, 0)) (array_continue 0) src_leaf_array_continue
+  /\ ((30 <=? length src_leaf_null)%nat = true /\ (60 <=? length src_leaf_bool)%nat = true /\ (100 <=? length src_leaf_hex4)%nat = true
+      /\ (300 <=? length src_leaf_array_start)%nat = true /\ (200 <=? length src_leaf_array_continue)%nat = true).
+Proof.
+  exact (conj tie_leaf_null (conj tie_leaf_bool (conj tie_leaf_hex4 (conj tie_leaf_array_start
+          (conj tie_leaf_array_continue leaf_tables_nonempty))))).
+Qed.
+
 Theorem control_from_source :
   src_is_control = set_of Parser.is_control char_domain /\ (forall c, 256 <= c -> Parser.is_control c = false).
 Proof. exact (conj tie_is_control is_control_above). Qed.
@@ -357,6 +409,7 @@ Proof. exact (conj tie_kind_anything_disjunction tie_kind_anything_conjunction).
 Print Assumptions tie_is_whitespace.
 Print Assumptions follows_from_source.
 Print Assumptions number_automaton_from_source.
+Print Assumptions leaf_parsers_from_source.
 Print Assumptions parser_escapes_from_source.
 Print Assumptions surrogate_pair_from_source.
 Print Assumptions presets_from_source.
